@@ -15,7 +15,7 @@ VARIABLES v            \* the case: a sequence of small integers (symbol indices
 \* escapes, dots, case and the dangling backslash all occur.
 Sym == << <<97>>, <<65>>, <<48>>, <<46>>, <<92>>, <<32>>, <<92, 50, 48, 48>>, <<92, 46>> >>
 StrOf(q) == Concat([i \in 1..Len(q) |-> Sym[q[i]]])
-InShard(q) == (SumSeq(q) + Len(q)) % NShards = Shard
+InShard(q) == SumSeq([i \in 1..Len(q) |-> i * q[i]]) % NShards = Shard   \* position-weighted, so shards mix all lengths
 
 \* Mode "shapes": label-length vectors over the boundary lengths whose wire length is 250..260,
 \* each rendered with three fill patterns (plain letter, \c escaped special, \DDD).
@@ -24,7 +24,7 @@ RECURSIVE ShapesFrom(_, _)
 ShapesFrom(total, k) ==      \* all sequences over BLen with at most k labels and 1+sum(len+1) <= 260
   {<<>>} \cup (IF k = 0 THEN {} ELSE
      UNION { { <<b>> \o r : r \in ShapesFrom(total + b + 1, k - 1) } : b \in { x \in BLen : total + x + 1 <= 260 } })
-Shapes == { sh \in ShapesFrom(1, 6) : 1 + SumSeq(sh) + Len(sh) >= 250 }
+ShapesUpTo(k) == { sh \in ShapesFrom(1, k) : 1 + SumSeq(sh) + Len(sh) >= 250 }   \* parameterised: TLC evaluates constants eagerly
 Fill(len, o) == [i \in 1..len |-> o]
 NameOfShape(sh, o) == [i \in 1..Len(sh) |-> Fill(sh[i], o)]
 
@@ -44,7 +44,7 @@ NamesUpTo(k) == UNION { NamesOfSize(j) : j \in 0..k }
 -----------------------------------------------------------------------------
 Init ==
   \/ Mode = "strings" /\ v \in UNION { [1..k -> 1..Len(Sym)] : k \in 0..N } /\ InShard(v)
-  \/ Mode = "shapes"  /\ \E sh \in Shapes, o \in {97, 46, 200} : v = <<o>> \o sh /\ InShard(sh)
+  \/ Mode = "shapes"  /\ \E sh \in ShapesUpTo(6), o \in {97, 46, 200} : v = <<o>> \o sh /\ InShard(sh)
   \/ Mode = "octets"  /\ \E o \in 0..255, pos \in 1..3 : v = <<o, pos>> /\ (o % NShards = Shard)
   \/ Mode = "names"   /\ v \in NamesUpTo(N) /\ (Len(v) = 0 \/ InShard(v[1]))
   \/ Mode = "pairs"   /\ \E a \in NamesUpTo(N), b \in NamesUpTo(N) : v = <<a, b>> /\ (Len(a) = 0 \/ InShard(a[1]))
